@@ -17,7 +17,8 @@ PROPS = os.path.join(l4.L4_DIR, 'XrlL4', 'Props', 'C20.lean')
 CLAIMED = dict(fortran=6, pascal=6, java=6, idl=6, cython=4)
 # which theorem speaks about which kind of difference (used to explain a failed build)
 THEOREM_OF = dict(constant='constants_agree_%s', family='families_complete_%s', prototype='prototypes_agree_%s',
-                  reference='prototypes_agree_%s', export='declared_is_exported', version='versions_agree', duplicate='constants_agree_%s')
+                  reference='prototypes_agree_%s', export='declared_is_exported', version='versions_agree', duplicate='constants_agree_%s',
+                  **{'idl-common': 'idl_common_exact', 'binding-body': 'cython_bodies_bind_same_name'})
 
 
 def build_exports(ctx):
@@ -83,7 +84,8 @@ def _run(ctx, replay):
     if new:
         body = '# C20 violated: the entries below differ from the C headers (re-check with ./check C20 --replay <this file>)\n'
         for d in new[:200]:
-            th = THEOREM_OF[d['kind']] % d['binding'] if '%s' in THEOREM_OF[d['kind']] else THEOREM_OF[d['kind']]
+            tk = THEOREM_OF.get(d['kind'], '(no theorem indexed for kind %s)' % d['kind'])
+            th = tk % d['binding'] if '%s' in tk else tk
             body += '# %s:%s  %s\n#   found:    %s\n#   expected: %s\n#   theorem:  %s\nentry %s\n' % (d['file'], d['line'], d['what'], d['found'], d['expected'], th, d['key'])
         if broken:
             body += '\n# broken obligations: %s\n' % json.dumps(dict(proof=proof_broken, tie=tie, other=problems))[:3000]
